@@ -117,7 +117,7 @@ def check(rep, tier):
         SH = sr.make(dim="spatial_1D", conf="shelf", height=0.05, diameter=0.05, K=200, prog=progH, extra=exH)
         dtH, _ = sr.step_info(SH); progH["t_tot"] = float(int(dtH * 9800))
         SH = sr.make(dim="spatial_1D", conf="shelf", height=0.05, diameter=0.05, K=200, prog=progH, extra=exH)
-        recH = dict(label="spatial_1D/shelf h=0.05 K=200 T_eq=3.82 C, 20 % solute", dim="spatial_1D", conf="shelf", S=SH, dt=dtH, prog=progH, error=None)
+        recH = dict(label="spatial_1D/shelf h=0.05 K=200 T_eq=3.82 C, 20 % solute", dim="spatial_1D", conf="shelf", S=SH, dt=dtH, prog=progH, error=None, must_complete=True)
         sr.run(SH)
     except Exception as e:
         recH["error"] = e
@@ -142,7 +142,11 @@ def check(rep, tier):
     for rec in recs:
         lab = rec["label"]
         if rec["error"] is not None:
-            rep.case(lab, nontrivial=False); rep.count("raised: %s" % type(rec["error"]).__name__); continue
+            rep.case(lab, nontrivial=False); rep.count("raised: %s" % type(rec["error"]).__name__)
+            if rec.get("must_complete"):
+                # a fixed corpus configuration (independent of the seed) whose process is long enough: it completes on the pinned tree
+                rep.violation("corpus-run-raises", "%s: the run raises %r although the process is long enough for this vial" % (lab, rec["error"]), dict(run=lab, error=repr(rec["error"])))
+            continue
         rep.case(lab, nontrivial=True, sample=dict(run=lab) if len(rep.samples) < 4 else None)
         rep.count(rec["dim"] + "/" + rec["conf"])
         if rec["dim"] == "spatial_1D":
